@@ -57,8 +57,11 @@ func runC07(c *Ctx) {
 				if e.Panic {
 					continue
 				}
-				st := hb.Of(helper.Params[0], e.Instr)
-				bd, ok := ana.Match("obj(p0, call<builtin.copy>(self, p1), call<builtin.copy>(slice(self, 32, none), call<(*ed.Point).Bytes>(obj(_, call<(*ed.Point).ScalarBaseMult>(self, "+patClamped+")))))", st)
+				st := expandAll(c, hb.Of(helper.Params[0], e.Instr))
+				// the two copies write disjoint halves (len(seed) == 32 is guarded), so their order is immaterial
+				seedCopy := "call<builtin.copy>(alt(self, slice(self, 0, 32)), p1)"
+				pubCopy := "call<builtin.copy>(slice(self, 32, none), call<(*ed.Point).Bytes>(obj(_, call<(*ed.Point).ScalarBaseMult>(self, " + patClamped + "))))"
+				bd, ok := ana.Match("alt(obj(p0, "+seedCopy+", "+pubCopy+"), obj(p0, "+pubCopy+", "+seedCopy+"))", st)
 				if !ok {
 					r.Viol("C07.keygen-flow.buffer", pos(e.Instr), "private key buffer at return is not seed ‖ [clamp(SHA512(seed)[:32])]B: %s", short(st.String(), 500))
 					continue
@@ -92,7 +95,7 @@ func runC07(c *Ctx) {
 					continue
 				}
 				nret++
-				st := hb.Of(helper.Params[0], e.Instr)
+				st := expandAll(c, hb.Of(helper.Params[0], e.Instr))
 				if _, ok := ana.Match(full, st); ok {
 					r.OK("C07.sign-flow.buffer", pos(e.Instr), "signature = R.Bytes() ‖ S.Bytes() with r=H(prefix‖M), R=[r]B, k=H(R‖A‖M), S=k·s+r; message hashed whole in both")
 					continue
@@ -106,7 +109,7 @@ func runC07(c *Ctx) {
 			// extract sign's k-hash roles for the sibling rule
 			for _, e := range ana.Exits(helper) {
 				if !e.Panic {
-					st := hb.Of(helper.Params[0], e.Instr)
+					st := expandAll(c, hb.Of(helper.Params[0], e.Instr))
 					if t, _ := ana.Find("call<(*ed.Scalar).MultiplyAdd>(self, $k, _, _)", st); t != nil {
 						signK = t.Arg(1)
 					}
@@ -120,7 +123,7 @@ func runC07(c *Ctx) {
 		vb := ana.NewBuilder(c.P, vf.Function)
 		var verK *ana.Term
 		for _, ci := range ana.CallsTo(vf.Function, "(*filippo.io/edwards25519.Point).VarTimeDoubleScalarBaseMult") {
-			verK = vb.CallTermAt(ci).Arg(1)
+			verK = expandAll(c, vb.CallTermAt(ci).Arg(1))
 		}
 		sw := hashWrites(signK)
 		vw := hashWrites(verK)
@@ -402,4 +405,16 @@ func storesTo(fn *ssa.Function, g *ssa.Global) int {
 		n += storesTo(an, g)
 	}
 	return n
+}
+
+// expandAll looks through repository helpers that only compute a value (ana.ExpandCalls, up to three levels).
+func expandAll(c *Ctx, t *ana.Term) *ana.Term {
+	for i := 0; i < 3; i++ {
+		nt, changed := ana.ExpandCalls(c.P, t)
+		if !changed {
+			break
+		}
+		t = nt
+	}
+	return t
 }
